@@ -257,3 +257,39 @@ func Malleate(sig []byte) []byte {
 	out[64] = sig[64] ^ 1
 	return out
 }
+
+// WithSigs returns a copy of tx carrying exactly the given sender signatures (through the RLP form: the fields are private).
+func WithSigs(tx *types.Transaction, sigs [][]byte) *types.Transaction { return setTxField(tx, 14, sigs) }
+
+// WithPayerSigs returns a copy of tx carrying exactly the given gas payer signatures.
+func WithPayerSigs(tx *types.Transaction, sigs [][]byte) *types.Transaction {
+	return setTxField(tx, 15, sigs)
+}
+
+func setTxField(tx *types.Transaction, idx int, sigs [][]byte) *types.Transaction {
+	buf, err := rlp.EncodeToBytes(tx)
+	if err != nil {
+		panic(err)
+	}
+	var fields []rlp.RawValue
+	if err := rlp.DecodeBytes(buf, &fields); err != nil || len(fields) <= idx {
+		panic(fmt.Sprintf("split tx: %v (%d fields)", err, len(fields)))
+	}
+	if sigs == nil {
+		sigs = [][]byte{}
+	}
+	enc, err := rlp.EncodeToBytes(sigs)
+	if err != nil {
+		panic(err)
+	}
+	fields[idx] = enc
+	out, err := rlp.EncodeToBytes(fields)
+	if err != nil {
+		panic(err)
+	}
+	var res types.Transaction
+	if err := rlp.DecodeBytes(out, &res); err != nil {
+		panic(err)
+	}
+	return &res
+}
